@@ -203,6 +203,19 @@ def case_alias(case):
             out.append(("C04:address-readback:legacy-name", "%s: read back %r, expected %r" % (where, describe(r), (kind, num))))
         if not (o == ref_obj) or not (ref_obj == o) or (o != ref_obj):
             out.append(("C04:equality:legacy-name", "%s: not equal to address.%s(%s)" % (where, kind, "" if num is None else num)))
+        # it is a control-gear address: a 24-bit (control device) frame refuses it and stays as it was
+        for bits in (24, 8, 25):
+            v0 = case["v"] & ((1 << bits) - 1)
+            g = frame.ForwardFrame(bits, v0)
+            try:
+                o.add_to_frame(g)
+                out.append(("C04:wrong-size-accepted:legacy-name", "%s: also accepted by a %d-bit frame (now %#x)" % (where, bits, g.as_integer)))
+                break
+            except exc.IncompatibleFrame:
+                pass
+            if g.as_integer != v0:
+                out.append(("C04:wrong-size-modified:legacy-name", "%s: a %d-bit frame refused it but is now %#x" % (where, bits, g.as_integer)))
+                break
     except Exception as e:  # noqa
         out.append(("C04:write-raised:%s:legacy-name" % type(e).__name__, "%s: %r" % (where, e)))
     return out
@@ -365,6 +378,23 @@ def case_decode(case):
             out.append(("C04:instance-off-24", "%s: instance_from_frame gave %r" % (where, i)))
         if f.as_integer != v or len(f) != bits:
             out.append(("C04:decode-modified-frame", where))
+        # the same frame object after single-bit writes (a program toggling the selector or one address bit): reading
+        # is a function of the bits it holds NOW
+        for i in sorted({bits - 1, bits - 2, bits - 7, (v * 5) % bits, 16 % bits, 8 % bits}):
+            f[i] = not f[i]
+            v2 = f.as_integer
+            r2 = address.from_frame(f)
+            exp2 = ref_gear_addr(v2 >> 9) if bits == 16 else ref_device_addr(v2)
+            if describe(r2) != exp2:
+                out.append(("C04:partition:%d:after-bit-write" % bits, "%s: after f[%d] was flipped (now %#x) from_frame gives %r, "
+                            "standard says %r" % (where, i, v2, describe(r2), exp2)))
+                break
+            if bits == 24:
+                i2 = address.instance_from_frame(f)
+                if describe_inst(i2) != ref_instance((v2 >> 8) & 0xFF):
+                    out.append(("C04:instance-partition:after-bit-write", "%s: after f[%d] was flipped (now %#x) "
+                                "instance_from_frame gives %r" % (where, i, v2, describe_inst(i2))))
+                    break
     except Exception as e:  # noqa
         out.append(("C04:decode-raised:%s" % type(e).__name__, "%s: %r" % (where, e)))
     return out
@@ -576,6 +606,25 @@ def case_user_subclass(case):
                 if describe(r) != exp:
                     out.append(("C04:partition-changed-by-user-subclass:%s" % variant, "with application subclasses defined (%s), "
                                 "%d-bit %#x reads as %r, standard says %r" % (variant, bits, v, describe(r), exp)))
+                    break
+        # 1b. the same for the instance byte: the program derives classes from the public instance classes too; every
+        #     instance byte still reads as an object of exactly the library's class for it
+        if variant == "label":
+            inst_names = sorted(set(INSTANCE_FLAGS.values()) | set(INSTANCE_SPECIAL.values()) | {"ReservedInstance"})
+            for iname in inst_names:
+                base = getattr(address, iname, None)
+                if base is not None:
+                    try:
+                        type("Labelled" + iname, (base,), {"label": "door"})
+                    except Exception:  # noqa - a class that refuses subclassing: nothing to compare
+                        pass
+            for byte in range(256):
+                r = address.instance_from_frame(frame.ForwardFrame(24, 0x010000 | (byte << 8) | 0x33))
+                kind, num = ref_instance(byte)
+                if type(r).__name__ != kind or describe_inst(r) != (kind, num):
+                    out.append(("C04:instance-partition-changed-by-user-subclass", "with application subclasses of the instance "
+                                "classes defined, instance byte %#04x reads as %s %r, standard says %r"
+                                % (byte, type(r).__name__, describe_inst(r), (kind, num))))
                     break
         # 2. an object of a subclass is an address of its base kind: writes the same field, equals the plain object
         #    and the object read back, in both operand orders
